@@ -213,7 +213,6 @@ func (w *Watcher) StopWatching(_ context.Context, id channel.ID) error {
 		// Channel could have been closed while were waiting for the mutex locked.
 		return errors.New("channel not registered with the watcher")
 	}
-	close(ch.done)
 
 	if ch.isSubChannel() {
 		latestParentTx := ch.parent.txRetriever.retrieve()
@@ -223,9 +222,14 @@ func (w *Watcher) StopWatching(_ context.Context, id channel.ID) error {
 
 		delete(parent.subChs, id)
 	} else if len(ch.subChs) > 0 {
+		// Refuse without touching the channel: it stays watched, and the
+		// request can be repeated once the sub-channels are de-registered.
 		return errors.WithMessagef(ErrSubChannelsPresent, "cannot de-register: %d %v", len(ch.subChs), ch.id)
 	}
 
+	// Cancel the event handlers only once it is certain that the channel will
+	// be de-registered. This must precede closePubSubs, which waits for them.
+	close(ch.done)
 	closePubSubs(ch)
 	w.remove(ch.id)
 	ch.isClosed = true
